@@ -9,3 +9,19 @@ CHECKS["C03"] = dict(
     note=TB + "; factors enumerated not symbolic; out-of-domain (non-compiling) conversions dropped and counted.")
 NA["C01"] = ("observable is the compiler's accept/reject verdict on ill-formed programs; no function body executes, so there is no IR "
              "to encode and no value for a solver to range over (DESIGN.md section 7)")
+CHECKS["C04"] = dict(
+    category="model_checking",
+    technique="bounded symbolic execution of clang LLVM IR of the real templates, SMT (z3/cvc5; integer, bit-vector and FP theories)",
+    text="Per (rep, N/D) instance the solver decides, for ALL stored values and in both directions, that will_conversion_truncate / "
+         "will_conversion_overflow / is_conversion_lossy equal the exact predicates (D does not divide x*N; x*N outside the promoted range "
+         "or x*N/D outside the rep's range). For float/double/long double: (A) infinite converted value => overflow reported, "
+         "(B) overflow reported => converted value infinite or within 2 ulp of max, for every bit pattern.",
+    note=TB + "; factors enumerated; FP claims are about the single IEEE operation the conversion performs; known finding D7 (one value per sign at the rounded threshold) is excluded by predicate and reported as KNOWN-FINDING.")
+CHECKS["C05"] = dict(
+    category="model_checking",
+    technique="bounded symbolic execution of clang LLVM IR of the real templates, SMT (z3/cvc5; integer, bit-vector and FP theories)",
+    text="For all 121 ordered rep pairs x enumerated factors, for ALL source values / bit patterns: not is_conversion_lossy<T> => the conversion "
+         "executes no UB and is exact (integral common type) or value-preserving in the final cast (floating common type); NaN/inf/out-of-range/"
+         "non-integral intermediate => lossy; for integral sources will_conversion_overflow<T> <=> some step's exact value leaves its range; "
+         "the checkers themselves execute no UB.",
+    note=TB + "; factor quantifier enumerated (rotating subset in quick); long-double common-type obligations with non-unit factor are stretch in quick.")
